@@ -88,6 +88,8 @@ def run(ctx):
             proto = "auto_" + proto
         elif i % 7 == 3:
             proto += "+gcfc"        # the server hands out a fresh Config per connection through GetConfigForClient
+        elif i % 7 == 5:
+            proto += "+clone"       # every connection is served by a Clone of one long-lived Config that receives the rotations
         hist.append({"proto": proto, "cap": cap, "ops": b})
     # the abstract Tamper at every byte of the ticket (thorough) / a seeded sample: connect, tamper(byte), connect
     tam = []
